@@ -198,16 +198,19 @@ PROPS = {
         ],
     },
     "C16": {
-        "modules": ["Hannibal.Props.C16", "Hannibal.Props.C16Current"],
+        "modules": ["Hannibal.Props.C16", "Hannibal.Props.C16Current", "Hannibal.Props.C16Q", "Hannibal.Props.C16QCurrent"],
         "theorems": ["Hannibal.C16_kept", "Hannibal.C16_released", "Hannibal.sys_actor_run", "Hannibal.C16_lifetime",
-                     "Hannibal.C16_broadcast", "Hannibal.C16_lifetime_current", "Hannibal.C16_broadcast_current"],
+                     "Hannibal.C16_broadcast", "Hannibal.C16_lifetime_current", "Hannibal.C16_broadcast_current",
+                     "Hannibal.C16q_holds", "Hannibal.C16q_current", "Hannibal.monC16q_lenient"],
         "driver": "sys16",
         "cases": {"quick": {"C16": 2000}, "thorough": {"C16": 40000}},
         "assumptions": COMMON_ASSUMPTIONS + [
-            "'every registered live child takes the broadcast up exactly once' (monC16q) and 'released children drain "
-            "and stop gracefully by quiescence' (monC05q on every actor's projection) are liveness clauses judged on "
-            "real quiescent traces; the proved parts are at-most-once / only-registered (C16_broadcast), kept / "
-            "released (C16_kept, C16_released) and the lifetime safety clause (C16_lifetime)",
+            "'every registered child that was never stopped / restarted / failed (and whose stream did not end) has taken "
+            "the broadcast up exactly once per registration by its quiescent point' (monC16q) is theorem C16q_holds "
+            "(WellWired05); the exemption for stream-attached children whose stream ended was added when the clause as "
+            "first written turned out false of the model (witness c16qStreamWitness; monC16q_lenient: the repair only "
+            "exempts); 'released children drain and stop gracefully by quiescence' is C05q_holds applied to the child's "
+            "projection (sys_actor_run) and is also checked on every actor's projection of every real trace",
             "the children map lives in the Context, which is dropped with the loop future: modelled as 'the step that "
             "ends the parent's task drops every child handle' and validated by acceptance of real traces with every "
             "termination cause (stop, drop, halt, handler panic, ctx.stop, cancellation at the j-th poll, restart)",
